@@ -44,8 +44,16 @@ fn dir_with_rational_normal3<S: Dom>(t: &mut Tape, sc: S) -> ([S; 3], [S; 3]) {
 }
 
 macro_rules! segment_case {
-    ($fname:ident, $N:expr, $Seg:ident, $mk:path, $un:path, $perp:ident, $ratn:ident) => {
+    ($fname:ident, $tiny:ident, $inner:ident, $N:expr, $Seg:ident, $mk:path, $un:path, $perp:ident, $ratn:ident) => {
         fn $fname<S: Lift>(t: &mut Tape, cx: &mut Cx) -> CaseResult {
+            $inner::<S>(t, cx, false)
+        }
+        /// The same arrangement scaled by 2^-k (exact in every domain): segments far shorter than
+        /// sqrt(epsilon) are ordinary segments, only start == end is degenerate.
+        fn $tiny<S: Lift>(t: &mut Tape, cx: &mut Cx) -> CaseResult {
+            $inner::<S>(t, cx, true)
+        }
+        fn $inner<S: Lift>(t: &mut Tape, cx: &mut Cx, tiny: bool) -> CaseResult {
             const N: usize = $N;
             let mut start = [S::zero(); N];
             for i in 0..N {
@@ -127,6 +135,22 @@ macro_rules! segment_case {
                     }
                 }
             }
+            if tiny {
+                // k: f32 up to 2^-24 (len^2 ~ 1e-13 << eps_f32), f64 / Rat up to 2^-40 (len^2 ~ 1e-22 << 2^-52)
+                let kmax = if S::NAME == "f32" { 24 } else { 40 };
+                let k = t.int(8, kmax);
+                let mut sfac = S::one();
+                let half = S::q(1, 2);
+                for _ in 0..k {
+                    sfac = sfac * half;
+                }
+                for i in 0..N {
+                    start[i] = start[i] * sfac;
+                    end[i] = end[i] * sfac;
+                    p[i] = p[i] * sfac;
+                }
+                cx.label(if k >= 27 { "scaled by 2^-27 or less (|end-start|^2 < 2^-52)" } else if k >= 12 { "scaled by 2^-12..2^-26" } else { "scaled by 2^-8..2^-11" });
+            }
             sample!(cx, "{} {} start={:?} end={:?} p={:?}", S::NAME, stringify!($Seg), start, end, p);
 
             // ---- oracle, from the actual inputs, in the oracle domain
@@ -136,7 +160,7 @@ macro_rules! segment_case {
             let dv = rf::subv(&eo, &so);
             let len_sq = rf::dot(&dv, &dv);
             let degenerate = len_sq.is_zero();
-            if !degenerate && len_sq.f() < 1.0 / 64.0 - 1e-9 {
+            if !tiny && !degenerate && len_sq.f() < 1.0 / 64.0 - 1e-9 {
                 discard!("near-degenerate segment (outside the domain)");
             }
             let t_raw = if degenerate { zero } else { rf::dot(&rf::subv(&po, &so), &dv) / len_sq };
@@ -171,7 +195,7 @@ macro_rules! segment_case {
             let near_end = !degenerate && ((tr.abs() <= 1.0 / 128.0) || ((tr - 1.0).abs() <= 1.0 / 128.0));
             cx.set_nontrivial(!degenerate && (nonzero_count(&dv) >= 2 || near_end || tr < 0.0 || tr > 1.0));
             // float tolerance: k = 32, scale = 1 + max |coordinate|
-            let m = 1.0 + vk::vec_max(&start).max(vk::vec_max(&end)).max(vk::vec_max(&p));
+            let m = (if tiny { 0.0 } else { 1.0 }) + vk::vec_max(&start).max(vk::vec_max(&end)).max(vk::vec_max(&p));
 
             // ---- vek
             let seg = $Seg::<S> { start: $mk(&start), end: $mk(&end) };
@@ -224,8 +248,8 @@ macro_rules! segment_case {
         }
     };
 }
-segment_case!(seg2, 2, LineSegment2, vk::v2, vk::a2, perp2, dir_with_rational_normal2);
-segment_case!(seg3, 3, LineSegment3, vk::v3, vk::a3, perp3, dir_with_rational_normal3);
+segment_case!(seg2, seg2_tiny, seg2_inner, 2, LineSegment2, vk::v2, vk::a2, perp2, dir_with_rational_normal2);
+segment_case!(seg3, seg3_tiny, seg3_inner, 3, LineSegment3, vk::v3, vk::a3, perp3, dir_with_rational_normal3);
 
 pub fn checks(checks: &mut Vec<Check>) {
     macro_rules! tape {
@@ -240,4 +264,11 @@ pub fn checks(checks: &mut Vec<Check>) {
     tape!("seg3-rat", about, 80, 30_000, 1_000_000, seg3::<Rat>);
     tape!("seg3-f64", about, 128, 30_000, 1_000_000, seg3::<f64>);
     tape!("seg3-f32", about, 128, 30_000, 1_000_000, seg3::<f32>);
+    let tiny = "the same arrangements scaled exactly by 2^-8 .. 2^-40 (f32: 2^-24): a segment shorter than sqrt(epsilon) is still a segment -- projected_point is the nearest point of it (closed form, on-the-segment, 257-point sampling), distance_to_point = |p - nearest|; tolerance relative to the coordinate magnitude";
+    tape!("seg2-tiny-rat", tiny, 80, 10_000, 300_000, seg2_tiny::<Rat>);
+    tape!("seg2-tiny-f64", tiny, 112, 10_000, 300_000, seg2_tiny::<f64>);
+    tape!("seg2-tiny-f32", tiny, 112, 10_000, 300_000, seg2_tiny::<f32>);
+    tape!("seg3-tiny-rat", tiny, 96, 10_000, 300_000, seg3_tiny::<Rat>);
+    tape!("seg3-tiny-f64", tiny, 144, 10_000, 300_000, seg3_tiny::<f64>);
+    tape!("seg3-tiny-f32", tiny, 144, 10_000, 300_000, seg3_tiny::<f32>);
 }
